@@ -22,6 +22,9 @@ const prop = "C09"
 type Case struct {
 	Prog   *mpcl.Prog `json:"prog"`
 	Inputs [][]string `json:"inputs"`
+	// Warm, when set, is compiled (both targets) before the measured
+	// program: compiler-internal caches must not leak between programs.
+	Warm *mpcl.Prog `json:"warm,omitempty"`
 }
 
 // Config is one set of compiler options.
@@ -118,12 +121,23 @@ func run(cs Case) ev.Outcome {
 
 	// Reference results per input vector.
 	type vec struct {
-		cin  []*big.Int
-		want []*big.Int
-		desc string
+		cin    []*big.Int
+		want   []*big.Int
+		desc   string
+		packed []*big.Int
 	}
 	var vecs []vec
 	cfgs := configs()
+	if cs.Warm != nil {
+		wsrc := cs.Warm.Source()
+		for _, target := range []utils.Target{utils.TargetYao, utils.TargetGMW} {
+			params := utils.NewParams()
+			params.Target = target
+			compiler.New(params).Compile(wsrc, nil)
+		}
+	}
+	divOp := singleDivMod(p)
+	knownDivErr := true // every mismatch so far is the known off-by-2 error
 	hashes := map[string]bool{}
 	var first *circuit.Circuit
 	var failing []Config
@@ -163,7 +177,7 @@ func run(cs Case) ev.Outcome {
 				if err != nil {
 					return ev.Fail("io-shape", "%v\n%s", err, src)
 				}
-				v := vec{cin: cin, desc: fmt.Sprint(in)}
+				v := vec{cin: cin, desc: fmt.Sprint(in), packed: packed}
 				for i, r := range main.Results {
 					v.want = append(v.want, p.Pack(r, want[i]))
 				}
@@ -184,10 +198,25 @@ func run(cs Case) ev.Outcome {
 					if i < len(got) {
 						g = got[i].Text(16)
 					}
-					failing = append(failing, cfg)
+					if len(failing) == 0 || failing[len(failing)-1] != cfg {
+						failing = append(failing, cfg)
+					}
 					if firstFail == "" {
 						firstFail = fmt.Sprintf("%s: inputs %s: result %d = 0x%s, reference 0x%s",
 							cfg, v.desc, i, g, v.want[i].Text(16))
+					}
+					if divOp != "" && i < len(got) && cfg.Target == utils.TargetGMW {
+						// One-operator division: look at every
+						// mismatch and tell the known error
+						// from any other.
+						if !offByTwo(divOp, main.Results[0], v.packed[1], got[i], v.want[i]) {
+							if knownDivErr {
+								firstFail = fmt.Sprintf("%s: inputs %s: result %d = 0x%s, reference 0x%s",
+									cfg, v.desc, i, g, v.want[i].Text(16))
+							}
+							knownDivErr = false
+						}
+						continue vectors
 					}
 					break vectors
 				}
@@ -208,6 +237,16 @@ func run(cs Case) ev.Outcome {
 			// divides: the GMW target's Goldschmidt divider (see the
 			// open C07 finding) is the only divider-specific code.
 			sig = "gmw-only/program-has-div-or-mod"
+			if divOp != "" {
+				// One-operator division programs are judged
+				// precisely: only "off by exactly 2" is the known
+				// error.
+				if knownDivErr {
+					sig = "gmw-only/goldschmidt-off-by-2"
+				} else {
+					sig = "wrong-result/" + failing[0].String() + "/div-not-off-by-2"
+				}
+			}
 		}
 		return ev.Fail(sig, "%d of %d configurations disagree with the reference; first: %s\n%s",
 			len(failing), len(cfgs), firstFail, src)
